@@ -58,8 +58,26 @@ fn run_line(line: &str) -> String {
     }
 }
 
+/// A logger that admits every level and renders every record: the arguments of the library's `log` macros are evaluated (and
+/// their Display / Debug code runs) as they would in an application that runs with verbose logging switched on.
+struct RenderingLogger;
+impl log::Log for RenderingLogger {
+    fn enabled(&self, _: &log::Metadata) -> bool {
+        true
+    }
+    fn log(&self, record: &log::Record) {
+        let text = format!("{} {} {}", record.level(), record.target(), record.args());
+        std::hint::black_box(text.len());
+    }
+    fn flush(&self) {}
+}
+static LOGGER: RenderingLogger = RenderingLogger;
+
 fn main() {
     std::panic::set_hook(Box::new(|_| {}));
+    if log::set_logger(&LOGGER).is_ok() {
+        log::set_max_level(log::LevelFilter::Trace);
+    }
     // per-case watchdog: a case that does not finish within the deadline is reported as HANG and the process exits
     // (the orchestrator restarts the driver on the next case)
     let deadline = std::env::var("IMPLDRV_CASE_SECS").ok().and_then(|v| v.parse::<u64>().ok()).unwrap_or(20);
@@ -69,7 +87,11 @@ fn main() {
     let (tx_line, rx_line) = std::sync::mpsc::channel::<String>();
     let (tx_res, rx_res) = std::sync::mpsc::channel::<String>();
     std::thread::Builder::new()
-        .stack_size(64 * 1024 * 1024)
+        // the stack an ordinary `std::thread::spawn` (and a tokio worker) gets: a library call that needs more than this
+        // overflows in a real caller too, and is reported as CRASH by the orchestrator
+        // (IMPLDRV_STACK_KB lowers it for the slices whose subject is resource use: the code under test needs a constant
+        // amount of stack there, so recursion as deep as the input is long shows up as an overflow whatever the frame size)
+        .stack_size(std::env::var("IMPLDRV_STACK_KB").ok().and_then(|v| v.parse::<usize>().ok()).unwrap_or(2048) * 1024)
         .spawn(move || {
             for line in rx_line {
                 let res = std::panic::catch_unwind(|| run_line(&line));
